@@ -151,3 +151,16 @@ Lemma count_step n len :
 Proof.
   rewrite !w64_mod, N.shiftl_mul_pow2. change (2 ^ 3) with 8. unfold M64. lia.
 Qed.
+
+(* the same when the stream started at a bit offset that is a multiple of 512 *)
+Lemma residue_of_count_base base n : base mod 512 = 0 ->
+  N.land (N.shiftr ((base + 8 * n) mod M64) 3) 63 = n mod 64.
+Proof.
+  intros Hb. change 63 with (N.ones 6). rewrite N.land_ones, N.shiftr_div_pow2.
+  change (2 ^ 3) with 8. change (2 ^ 6) with 64. unfold M64. lia.
+Qed.
+Lemma count_step_base base n len :
+  w64 ((base + 8 * n) mod M64 + w64 (N.shiftl len 3)) = (base + 8 * (n + len)) mod M64.
+Proof.
+  rewrite !w64_mod, N.shiftl_mul_pow2. change (2 ^ 3) with 8. unfold M64. lia.
+Qed.
